@@ -227,6 +227,7 @@ func main() {
 	replayFile := flag.String("replay", "", "replay one world file and report")
 	worldsFlag := flag.Int("worlds", 0, "override the number of worlds")
 	keep := flag.Bool("keep", false, "keep the scratch directory")
+	selftest := flag.Bool("selftest", false, "determinism self-test: same worlds in many fresh processes at GOMAXPROCS 1, 4 and 16; full event-log hashes must agree")
 	flag.Parse()
 	if v := os.Getenv("VERIF_TIER"); v != "" && flag.Lookup("tier").Value.String() == "quick" && !isFlagSet("tier") {
 		*tier = v
@@ -287,6 +288,9 @@ func main() {
 		}
 		os.RemoveAll(b.scratch)
 		os.Exit(code)
+	}
+	if *selftest {
+		os.Exit(selfTest(*prop, seed))
 	}
 	cfg, ok := tiers[*tier][*prop]
 	if !ok {
@@ -844,4 +848,72 @@ func (b *build) raceReplay(file string) (string, string) {
 		return "", "race report without a gophersat frame:\n" + tail(blk, 1500)
 	}
 	return strings.TrimSpace(blk), ""
+}
+
+// selfTest proves determinism before anything is believed (DESIGN.md section 7): for every
+// property (or one), 300 worlds are executed in 6 fresh processes (GOMAXPROCS 1, 4, 16, twice
+// each) and 60 of them in 30 more processes; every process must produce the same event-log
+// hash, violation signature, decision and switch count for every world.
+func selfTest(only string, seed int64) int {
+	b := prepare()
+	defer os.RemoveAll(b.scratch)
+	props := []string{"C01", "C02", "C03", "C04", "C05", "C06", "C07", "C08", "C09", "C10", "C13", "C14", "C16", "C19", "C20"}
+	if only != "" {
+		props = []string{only}
+	}
+	bad := 0
+	for _, p := range props {
+		runSet := func(n, procs int, gmp []int) (map[string]int, error) {
+			outs := make([]string, procs)
+			var wg sync.WaitGroup
+			errs := make([]error, procs)
+			for i := 0; i < procs; i++ {
+				wg.Add(1)
+				go func(i int) {
+					defer wg.Done()
+					f := filepath.Join(b.scratch, fmt.Sprintf("det-%s-%d-%d.txt", p, n, i))
+					c := exec.Command(b.engine, "-test.run", "TestWorlds", "-test.timeout", "0", "-gsim.mode=det", "-gsim.prop="+p, fmt.Sprintf("-gsim.seed=%d", seed), "-gsim.from=0", fmt.Sprintf("-gsim.to=%d", n), "-gsim.out="+f, "-gsim.sites="+b.sites)
+					c.Env = append(env(), fmt.Sprintf("GOMAXPROCS=%d", gmp[i%len(gmp)]))
+					if o, err := c.CombinedOutput(); err != nil {
+						errs[i] = fmt.Errorf("%v: %s", err, tail(string(o), 500))
+						return
+					}
+					d, _ := os.ReadFile(f)
+					outs[i] = string(d)
+					os.Remove(f)
+				}(i)
+			}
+			wg.Wait()
+			distinct := map[string]int{}
+			for i, o := range outs {
+				if errs[i] != nil {
+					return nil, errs[i]
+				}
+				distinct[o]++
+			}
+			return distinct, nil
+		}
+		d1, err := runSet(300, 6, []int{1, 4, 16})
+		if err != nil {
+			fmt.Printf("selftest %s: process failed: %v\n", p, err)
+			bad++
+			continue
+		}
+		d2, err := runSet(60, 30, []int{1, 4, 16, 2, 8})
+		if err != nil {
+			fmt.Printf("selftest %s: process failed: %v\n", p, err)
+			bad++
+			continue
+		}
+		if len(d1) != 1 || len(d2) != 1 {
+			fmt.Printf("selftest %s: NONDETERMINISM: %d distinct logs over 6 processes x 300 worlds, %d over 30 processes x 60 worlds\n", p, len(d1), len(d2))
+			bad++
+			continue
+		}
+		fmt.Printf("selftest %s: 300 worlds x 6 processes and 60 worlds x 30 processes (GOMAXPROCS 1,2,4,8,16): identical event-log hashes\n", p)
+	}
+	if bad > 0 {
+		return 2
+	}
+	return 0
 }
